@@ -35,7 +35,7 @@ from src.core.base import BaseLintContext, BaseLintRule
 from src.core.constants import HEADER_SCAN_LINES, Language
 from src.core.linter_utils import load_linter_config, path_in_project
 from src.core.types import Violation
-from src.linter_config.directive_markers import check_general_ignore, has_ignore_directive_marker
+from src.linter_config.directive_markers import has_ignore_directive_marker
 from src.linter_config.ignore import _check_specific_rule_ignore, get_ignore_parser
 
 from .atemporal_detector import AtemporalDetector
@@ -178,7 +178,7 @@ class FileHeaderRule(BaseLintRule):  # thailint: ignore[srp]
         """Check if line has matching ignore directive for this rule."""
         if not has_ignore_directive_marker(line):
             return False
-        return _check_specific_rule_ignore(line, self.rule_id) or check_general_ignore(line)
+        return _check_specific_rule_ignore(line, self.rule_id)  # bare ignore-file included
 
     def _has_custom_ignore_syntax(self, file_content: str) -> bool:
         """Check custom file-level ignore syntax."""
